@@ -1,4 +1,5 @@
 import SakuraVerif.Lemmas.Expr
+import SakuraVerif.Model.Lexer
 import SakuraVerif.Lemmas.ScriptExpr
 /-! # C10 — script expressions: conventional precedence, associativity, total arithmetic
 
@@ -148,5 +149,51 @@ theorem C10_runner_computes_tree (fns : List Fn) (ρ : Nat → Val) (e : Expr) (
 open Sakura.Sx in
 /-- the operator characters stored in `CalcTree` tokens select exactly the operations of the expression model -/
 theorem C10_calc_ops (id : Nat) (a b : Val) : calcOp (flagOf id) (some a) (some b) = some (some (evalOp id a b)) := calcOp_eval id a b
+
+/-! ## literals (the number readers of the literal lexer model) -/
+
+/-- the value of a string of decimal digits, and of a string of hexadecimal digits -/
+def decValue (ds : List Nat) : Int := ds.foldl (fun (a : Int) (c : Nat) => a * 10 + ((c : Int) - 48)) 0
+def hexValue (ds : List Nat) : Int := ds.foldl (fun (a : Int) (c : Nat) => a * 16 + (Lx.hexVal c).getD 0) 0
+
+theorem accDec_digits (ds rest : List Nat) (hd : ∀ c ∈ ds, Lx.isDigit c = true) (hr : ∀ c r, rest = c :: r → Lx.isDigit c = false) :
+    ∀ acc, Lx.accDec acc (ds ++ rest) = (ds.foldl (fun (a : Int) (c : Nat) => a * 10 + ((c : Int) - 48)) acc, rest) := by
+  induction ds with
+  | nil =>
+    intro acc
+    cases rest with
+    | nil => simp [Lx.accDec]
+    | cons c r => simp [Lx.accDec, hr c r rfl]
+  | cons d ds ih =>
+    intro acc
+    have h1 : Lx.isDigit d = true := hd d (by simp)
+    simp only [List.cons_append, Lx.accDec, h1, if_true, List.foldl_cons]
+    exact ih (fun c hc => hd c (by simp [hc])) _
+
+theorem accHex_digits (ds rest : List Nat) (hd : ∀ c ∈ ds, (Lx.hexVal c).isSome = true) (hr : ∀ c r, rest = c :: r → Lx.hexVal c = none) :
+    ∀ acc, Lx.accHex acc (ds ++ rest) = (ds.foldl (fun (a : Int) (c : Nat) => a * 16 + (Lx.hexVal c).getD 0) acc, rest) := by
+  induction ds with
+  | nil =>
+    intro acc
+    cases rest with
+    | nil => simp [Lx.accHex]
+    | cons c r => simp [Lx.accHex, hr c r rfl]
+  | cons d ds ih =>
+    intro acc
+    obtain ⟨v, hv⟩ := Option.isSome_iff_exists.mp (hd d (by simp))
+    simp only [List.cons_append, Lx.accHex, hv, List.foldl_cons, Option.getD_some]
+    exact ih (fun c hc => hd c (by simp [hc])) _
+
+/-- a decimal literal denotes its value — every digit counts, however many there are (no truncation to 32 bits, no saturation): the digit
+    loop of `get_int` on a run of digits followed by anything that is not a digit -/
+theorem C10_decimal_literal (ds rest : List Nat) (hd : ∀ c ∈ ds, Lx.isDigit c = true) (hr : ∀ c r, rest = c :: r → Lx.isDigit c = false) :
+    Lx.accDec 0 (ds ++ rest) = (decValue ds, rest) := accDec_digits ds rest hd hr 0
+
+/-- … and so does a hexadecimal literal (the digit loop of `get_hex`, after `$` or `0x`) -/
+theorem C10_hex_literal (ds rest : List Nat) (hd : ∀ c ∈ ds, (Lx.hexVal c).isSome = true) (hr : ∀ c r, rest = c :: r → Lx.hexVal c = none) :
+    Lx.accHex 0 (ds ++ rest) = (hexValue ds, rest) := accHex_digits ds rest hd hr 0
+
+-- `$100000000` is 2^32, `9223372036854775808` is 2^63 (the readers themselves do not wrap: the 64-bit domain is the tie's)
+example : hexValue [49, 48, 48, 48, 48, 48, 48, 48, 48] = 4294967296 ∧ decValue [57, 50, 50, 51, 51, 55, 50, 48, 51, 54, 56, 53, 52, 55, 55, 53, 56, 48, 56] = 9223372036854775808 := by decide +kernel
 
 end Sakura.Props.C10
